@@ -274,6 +274,67 @@ def layer_case(args):
     return {"name": name, "dtype": dtn, "fails": fails, "args": args}
 
 
+def _inv(t):
+    g = t.grad
+    if g is None:
+        return None
+    if not isinstance(g, np.ndarray):
+        return f"grad is a {type(g).__name__}, not an ndarray"
+    if g.shape != t.shape:
+        return f"grad shape {g.shape} != tensor shape {t.shape}"
+    if g.dtype != t.dtype:
+        return f"grad dtype {g.dtype} != tensor dtype {t.dtype}"
+    return None
+
+
+def history_cases(only=None):
+    """the shape/dtype invariant along histories in which a tensor that already holds a gradient changes shape
+    (`.shape =` with tracking on and inside no_autodiff, on a base, on the base of a live view, on a view) or is updated
+    in place inside no_autodiff; -> [(name, message)]"""
+    out = []
+
+    def fam():
+        x = mg.tensor(np.arange(6.0))
+        v = x[:4]
+        ((v * 2).sum() + (x * 3).sum()).backward()
+        return x, v
+
+    def run(name, f):
+        if only is not None and name != only:
+            return
+        x, v = fam()
+        try:
+            f(x, v)
+        except Exception as e:  # noqa: BLE001
+            out.append((name, f"raised {type(e).__name__}: {str(e)[:80]}"))
+            return
+        for nm, t in (("the tensor", x), ("its view", v)):
+            m = _inv(t)
+            if m:
+                out.append((name, f"{nm}: {m}"))
+                return
+
+    def untracked(f):
+        def g(x, v):
+            with mg.no_autodiff:
+                f(x, v)
+        return g
+
+    run("shape-setter-tracked", lambda x, v: setattr(x, "shape", (2, 3)))
+    run("shape-setter-tracked-view", lambda x, v: setattr(v, "shape", (2, 2)))
+    run("shape-setter-untracked", untracked(lambda x, v: setattr(x, "shape", (2, 3))))
+    run("shape-setter-untracked-int", untracked(lambda x, v: setattr(x, "shape", 6)))
+    run("shape-setter-untracked-infer", untracked(lambda x, v: setattr(x, "shape", (3, -1))))
+    run("shape-setter-untracked-view", untracked(lambda x, v: setattr(v, "shape", (2, 2))))
+    run("inplace-untracked", untracked(lambda x, v: x.__iadd__(1.0)))
+    run("inplace-untracked-view", untracked(lambda x, v: v.__imul__(2.0)))
+    run("setitem-untracked", untracked(lambda x, v: x.__setitem__(slice(0, 2), 7.0)))
+    return out
+
+
+N_HISTORY = 9
+
+
 def nontrivial(prog):
     return len(prog) >= 5
 
@@ -284,7 +345,8 @@ def run(ctx: Ctx) -> Outcome:
     out.rule = ("random programs; for a random non-constant terminal tensor: backward() vs sum().backward(), backward(g) vs "
                 "(L*g).sum().backward() for broadcastable g, a non-broadcastable g must be rejected with no gradient written, "
                 "and every stored grad is an ndarray of its tensor's shape and dtype; plus 20 layer/op cases x float64/32/16/mixed precision x "
-                "three seed kinds for the shape/dtype invariant (incl. a 0-d float64 tensor receiving float32 gradients)")
+                "three seed kinds for the shape/dtype invariant (incl. a 0-d float64 tensor receiving float32 gradients); plus 9 histories in "
+                "which a tensor that holds a gradient changes shape (`.shape =`, tracked and inside no_autodiff, base / base of a view / view) or is updated in place inside no_autodiff")
     engcheck.report(out, results, "C14", oracle, shrinkable=False)
     cs = layer_cases()
     items = [(ctx.seed + r, ci, dti, sk) for ci in range(len(cs)) for dti in range(5) for sk in range(3) for r in range(ctx.n(1, 4))]
@@ -309,6 +371,11 @@ def run(ctx: Ctx) -> Outcome:
                 seen.add(sig)
                 out.violations.append(Violation(sig, f"{r['name']} ({r['dtype']}): {f}", {"kind": "layer", "args": list(r["args"])}))
     out.stats["layer_cases"] = hist
+    for name, msg in history_cases():
+        out.violations.append(Violation(f"C14|grad-shape|{name}", f"{name}: {msg}", {"kind": "history", "name": name}))
+    out.evaluations += N_HISTORY
+    for k in range(N_HISTORY):
+        out.nontrivial.add(stable_hash(["history", k]))
     out.stats["skipped_layer_cases"] = sorted({f"{r['name']}:{r['dtype']}:{r['skipped']}" for r in res if r.get("skipped")})
     return out
 
@@ -317,6 +384,10 @@ _CACHE = {}
 
 
 def check_witness(w):
+    if "history" in w:
+        for name, msg in history_cases(only=w["history"]):
+            return Violation(f"C14|grad-shape|{name}", f"{name}: {msg}", {"kind": "history", "name": name})
+        return None
     r = _CACHE.get(tuple(w["args"])) or layer_case(tuple(w["args"]))
     for f in r["fails"]:
         cls = "shape" if "shape" in f else ("dtype" if "dtype" in f else ("type" if "ndarray" in f else "raised"))
@@ -326,6 +397,10 @@ def check_witness(w):
 
 def replay(data) -> bool:
     r = data["replay"]
+    if r.get("kind") == "history":
+        res = history_cases(only=r["name"])
+        print(res)
+        return bool(res)
     if r.get("kind") == "layer":
         res = layer_case(tuple(r["args"]))
         print(res)
